@@ -1224,7 +1224,8 @@ class Index:
                 )
                 sha1_writer.close()
         except:
-            f.close()
+            # Do not commit a partially written lock file over the index.
+            f.abort()
             raise
 
     def read(self) -> None:
